@@ -91,6 +91,43 @@ def LatOK (exact : Bool) (x : LStage) : Prop :=
 instance (e : Bool) (x : LStage) : Decidable (LatOK e x) := by
   unfold LatOK; cases x.cfg.kind <;> simp only <;> exact inferInstance
 
+def blockLen (c : StageCfg) : Nat := c.dftLen - (c.numTaps - 1)
+
+/-- shape clauses of a dft stage beyond `StageWF`: the decimation phase starts at 0; a power-of-two (frequency-domain)
+    up-sampler needs `L ∣ block_len` (what non-linear phase breaks on the pinned tree: finding F1); the
+    frequency-domain decimator needs `2^m ∣ block_len` -/
+def DftShapeOK (c : StageCfg) (s0 : StageSt) : Prop :=
+  s0.remM = 0 ∧ ((isPow2 c.L || c.L == 1) = true → c.L ∣ blockLen c) ∧ (c.M ≤ 0 → 2 ^ (-c.M).toNat ∣ blockLen c)
+
+instance (c : StageCfg) (s0 : StageSt) : Decidable (DftShapeOK c s0) := by unfold DftShapeOK; exact inferInstance
+
+/-- post-context of a stage beyond the centre of its kernel, in periods of the stage's input: how far past the
+    represented instant the last sample an output reads lies, minus one -/
+def margin (x : LStage) : Rat :=
+  match x.cfg.kind with
+  | .half => (x.cfg.prePost : Nat) - (x.lat.pre : Nat) - 1
+  | .clocked => if x.lat.cubic then (x.cfg.taps : Nat) - (x.lat.pre : Nat) - 2 else (x.lat.nc : Nat) / 2 - 1
+  | .dft => (((x.lat.postPeak : Nat) + 1 - (x.cfg.L : Nat)) : Rat) / (x.cfg.L : Nat)
+
+/-- the window of every output reaches at least to the centre of its kernel (so that no output can appear before the
+    input it represents), plus the shape clauses of the dft block recurrences -/
+def EarlyOK (x : LStage) : Prop :=
+  match x.cfg.kind with
+  | .half => x.lat.pre + 1 ≤ x.cfg.prePost
+  | .clocked => if x.lat.cubic then x.lat.pre + 2 ≤ x.cfg.taps else 2 ≤ x.lat.nc ∧ x.lat.nc ≤ x.cfg.taps
+  | .dft => x.cfg.L ≤ x.lat.postPeak + 1 ∧ DftShapeOK x.cfg x.s0
+
+instance (x : LStage) : Decidable (EarlyOK x) := by
+  unfold EarlyOK; cases x.cfg.kind <;> simp only <;> exact inferInstance
+
+def PlanEarlyOK (l : List LStage) : Prop := ∀ x ∈ l, EarlyOK x
+instance (l : List LStage) : Decidable (PlanEarlyOK l) := by unfold PlanEarlyOK; exact inferInstance
+
+/-- the pipeline's total post-context, in periods of its input -/
+def margOf : List LStage → Rat
+  | [] => 0
+  | x :: below => margin x * rateOf (below.map tstage) + margOf below
+
 def PlanLatOK (exact : Bool) (l : List LStage) : Prop := ∀ x ∈ l, LatOK exact x
 instance (e : Bool) (l : List LStage) : Decidable (PlanLatOK e l) := by unfold PlanLatOK; exact inferInstance
 
